@@ -29,6 +29,7 @@ const (
 	rOneByte         // one byte per Read
 	rSplit           // first Read returns K bytes, the second the rest
 	rChunk           // K bytes per Read
+	rStd             // a standard-library reader handed over as it is (it exposes Len, Size, WriteTo ...): K = 0 strings.Reader, 1 bytes.Reader, 2 bytes.Buffer
 )
 
 type rmode struct {
@@ -46,6 +47,8 @@ func (m rmode) String() string {
 		return "1-byte"
 	case rSplit:
 		return fmt.Sprintf("split@%d", m.K)
+	case rStd:
+		return [...]string{"strings.Reader", "bytes.Reader", "bytes.Buffer"}[m.K]
 	}
 	return fmt.Sprintf("chunk%d", m.K)
 }
@@ -61,8 +64,24 @@ func (m rmode) feature() string {
 		return "read=2-split"
 	case rChunk:
 		return "read=chunked"
+	case rStd:
+		return "read=std-reader"
 	}
 	return "read=whole"
+}
+
+// source builds the reader the library gets for one read mode
+func source(text []byte, m rmode) io.Reader {
+	if m.Kind == rStd {
+		switch m.K {
+		case 0:
+			return strings.NewReader(string(text))
+		case 1:
+			return bytes.NewReader(text)
+		}
+		return bytes.NewBuffer(append([]byte{}, text...))
+	}
+	return &segReader{data: text, m: m}
 }
 
 type segReader struct {
@@ -121,7 +140,7 @@ type unsetT struct{}
 func judge(text []byte, want interface{}, hasComment bool, m rmode) verdict {
 	var got interface{} = unsetT{}
 	var err error
-	if p, msg := hl.Try(func() { err = ojson.Unmarshal(&segReader{data: text, m: m}, &got) }); p {
+	if p, msg := hl.Try(func() { err = ojson.Unmarshal(source(text, m), &got) }); p {
 		return verdict{"panic", "Unmarshal panicked: " + msg}
 	}
 	if err != nil {
@@ -131,7 +150,7 @@ func judge(text []byte, want interface{}, hasComment bool, m rmode) verdict {
 		return verdict{"unmarshal", fmt.Sprintf("Unmarshal value %s, encoding/json on the undecorated text gives %s", show(got), show(want))}
 	}
 	var out []byte
-	if p, msg := hl.Try(func() { out, err = io.ReadAll(ojson.NewJsonPlusReader(&segReader{data: text, m: m})) }); p {
+	if p, msg := hl.Try(func() { out, err = io.ReadAll(ojson.NewJsonPlusReader(source(text, m))) }); p {
 		return verdict{"panic", "NewJsonPlusReader read panicked: " + msg}
 	}
 	if err != nil {
@@ -685,6 +704,7 @@ func runDoc(c *hl.Ctx, d doc, tc famCfg) {
 			if ndec <= tc.extraMaxDec {
 				evalCase(c, d.fam, d.toks, want, buf, vec, final, hc, rmode{Kind: rOneByte})
 				evalCase(c, d.fam, d.toks, want, buf, vec, final, hc, rmode{Kind: rWholeEOF})
+				evalCase(c, d.fam, d.toks, want, buf, vec, final, hc, rmode{Kind: rStd, K: ndec % 3})
 			}
 			if ndec <= tc.splitMaxDec && (final == 0 || tc.splitFinals) {
 				for k := 1; k < len(buf); k++ {
@@ -775,7 +795,7 @@ func bigDoc(bc bigCase) (text, plain []byte) {
 }
 
 func bigModes(c *hl.Ctx, n int) []rmode {
-	ms := []rmode{{Kind: rWhole}, {Kind: rWholeEOF}, {Kind: rChunk, K: 4096}, {Kind: rChunk, K: 1000}}
+	ms := []rmode{{Kind: rWhole}, {Kind: rWholeEOF}, {Kind: rChunk, K: 4096}, {Kind: rChunk, K: 1000}, {Kind: rStd, K: 0}, {Kind: rStd, K: 1}, {Kind: rStd, K: 2}}
 	if n <= 70000 {
 		ms = append(ms, rmode{Kind: rChunk, K: 7})
 	} else {
@@ -855,7 +875,7 @@ var verifyDistinct = os.Getenv("C17_VERIFY_DISTINCT") != ""
 
 func run(c *hl.Ctx) {
 	tierAlphabet(c)
-	c.Rule("E3 bounded-exhaustive. Documents (deduplicated by text): family S = every string of <=3 elements of the hostile alphabet as top-level value, array element, object key, object member value (+ the same strings spelled with the alternative \\uXXXX and \\/ escapes); family P = every ordered pair of strings of <=2 elements as [s,t] and {s:t}; family T = every value tree of depth<=2 over the atom/filler/key alphabets (bounds in info.families). Each document x decoration vector over the decoration alphabet (7 base + 8 extended elements, 6 of them in the quick tier: openers overlapping each other, text ending in a backslash, ...) at every token boundary (all 15^b vectors for b<=3 (thorough 4), all 7^b base vectors plus every <=2-decorated vector using an extended element above that up to the full bound, otherwise every vector over the 15 elements with at most max decorated boundaries) x final unterminated line comment {none, //c, //} (thorough also //*) x reads {whole, data+EOF in one call, 1-byte, every 2-split}. Family size = documents of 65535..262145 bytes made of one long string / number run / space run / block comment / line comment / many short strings x {plain, line comment before the last token, final //c} x read modes. distinct_nontrivial = number of distinct decorated texts containing at least one comment that went through the oracle (documents are deduplicated by their text before sharding; distinct decoration vectors of one token list give distinct texts by construction; read modes are not counted).")
+	c.Rule("E3 bounded-exhaustive. Documents (deduplicated by text): family S = every string of <=3 elements of the hostile alphabet as top-level value, array element, object key, object member value (+ the same strings spelled with the alternative \\uXXXX and \\/ escapes); family P = every ordered pair of strings of <=2 elements as [s,t] and {s:t}; family T = every value tree of depth<=2 over the atom/filler/key alphabets (bounds in info.families). Each document x decoration vector over the decoration alphabet (7 base + 8 extended elements, 6 of them in the quick tier: openers overlapping each other, text ending in a backslash, ...) at every token boundary (all 15^b vectors for b<=3 (thorough 4), all 7^b base vectors plus every <=2-decorated vector using an extended element above that up to the full bound, otherwise every vector over the 15 elements with at most max decorated boundaries) x final unterminated line comment {none, //c, //} (thorough also //*) x reads {whole, data+EOF in one call, 1-byte, every 2-split, a standard-library reader (strings.Reader / bytes.Reader / bytes.Buffer, which expose Len and WriteTo) handed over as it is}. Family size = documents of 65535..262145 bytes made of one long string / number run / space run / block comment / line comment / many short strings x {plain, line comment before the last token, final //c} x read modes. distinct_nontrivial = number of distinct decorated texts containing at least one comment that went through the oracle (documents are deduplicated by their text before sharding; distinct decoration vectors of one token list give distinct texts by construction; read modes are not counted).")
 	c.Assume("encoding/json is the reference decoder for the undecorated text", "the reference tokenizer (RFC 8259 lexical grammar) agrees with the generator on every generated document (self-checked on every document)",
 		"comments are only placed between tokens; only // and /* */ comments are used; documents are valid JSON")
 	c.Info("string_alphabet", strAlphabet)
